@@ -19,11 +19,16 @@ UA = "cirkit/utils/algorithms.py"
 PARAM_KINDS = ("tensor", "unary", "reference")
 
 
-def tensor_param(vc, shape, kind="tensor", unary="SoftmaxParameter"):
+def dtype_of(vc, name):
+    from engine.values import ClassVal
+    return vc.I.B.getattr_(vc.I, ClassVal(vc.repo.lookup("cirkit/symbolic/dtypes.py:DataType")), name)
+
+
+def tensor_param(vc, shape, kind="tensor", unary="SoftmaxParameter", dtype="REAL"):
     """a symbolic Parameter of the given shape: a learnable tensor | a unary op over a learnable tensor |
-    a reference to a tensor owned by somebody else"""
+    a reference to a tensor owned by somebody else; the tensor's data type is REAL or COMPLEX"""
     init = vc.new(f"{SI}:NormalInitializer")
-    tp = vc.new(f"{SP}:TensorParameter", *shape, initializer=init)
+    tp = vc.new(f"{SP}:TensorParameter", *shape, initializer=init, dtype=dtype_of(vc, dtype))
     if kind == "tensor":
         return vc.call(f"{SP}:Parameter.from_input", tp)
     if kind == "reference":
